@@ -243,7 +243,8 @@ where
         let ptr = check_alloc(ptr, layout);
         let mut ptr = ptr.cast();
         let header: &mut Header<_, _> = unsafe { ptr.as_mut() };
-        header.prefix = P::default();
+        // the memory is fresh: write without dropping the (uninitialized) old value
+        unsafe { ptr::write(&mut header.prefix, P::default()) };
         header.cap = capacity;
         header.len = 0;
         Self(ptr)
@@ -1241,6 +1242,9 @@ impl<T, C> Drop for ThinVec<T, C> {
         unsafe {
             if mem::needs_drop::<T>() {
                 ptr::drop_in_place(self.as_mut_slice());
+            }
+            if mem::needs_drop::<C>() {
+                ptr::drop_in_place(&mut self.header_mut().prefix);
             }
             let layout = self.current_layout();
             unsafe { dealloc(self.0.cast().as_ptr(), layout) };
